@@ -1,4 +1,5 @@
 import SieveModel.Spec.Vocabulary
+import SieveModel.Spec.FrozenTable
 import SieveModel.Spec.WF
 import SieveModel.Model.Machine
 import SieveModel.Model.Show
@@ -311,6 +312,13 @@ theorem accepted_tags_are_supported_tags (TokP : Tok → Prop) (name : Bytes) (a
     and, where the RFCs close it, the value set (comparators, relational operators); a value added to or lost from such a list,
     a parameter that wandered to another tag, a type widened or narrowed breaks this obligation -/
 theorem live_table_gives_tags_their_supported_parameters : Spec.ParamsExactly Generated.builtinTable = true := by
+  decide +kernel
+
+/-- **the command table is the supported language's**: the table regenerated from the code on every run equals, definition by
+    definition and field by field, the frozen table the independent recogniser judges scripts with (`spec/command_table.json`).
+    Any edit of a definition — a slot's types, a `required` flag, the order of slots, `must_follow`, `accept_children` — breaks
+    this obligation; the search then pits the parser against the recogniser, which still speaks the frozen language -/
+theorem live_table_is_the_supported_table : Generated.builtinTable = Spec.frozenTable := by
   decide +kernel
 
 end C01
